@@ -77,6 +77,14 @@ def ext_sessions(tier, seed):
             cases.append({"cid": cid, "kind": "ext", "mode": "write", "dump": True, "clock": clock,
                           "query": "UNWIND range(1, %d) AS i CREATE (:N {s: %d, i: i})" % (st["n"], si),
                           "meta": {"n": st["n"], "stmt": si, "clock": clock}})
+            if (k + si) % 2 == 0:
+                # a statement that creates a node and then fails (a map is not a storable property value): the transaction is
+                # dropped with an identity reserved; the statements after it must still succeed
+                cid += 1
+                fclock = [3000000 + 10 * si, 3000000 + 10 * si + 1]
+                cases.append({"cid": cid, "kind": "extfail", "mode": "write", "dump": True, "clock": fclock,
+                              "query": "UNWIND [[1], [{a: 1}]] AS v CREATE (:Tmp {bad: v})",
+                              "meta": {"n": 0, "stmt": si, "clock": fclock}})
         for q in ("#compact", "#reopen"):
             cid += 1
             cases.append({"cid": cid, "kind": "extadmin", "mode": "admin", "dump": True, "query": q, "meta": {"n": 0, "clock": []}})
